@@ -265,8 +265,13 @@ pub fn check(sh: &Shared, c: &Case) -> Check {
     *a2.term_mut() = apply_edit(c.a.term(), &c.edit);
     let a2 = apply_decor(&a2, &c.decor);
     let ca = canon_nd(&c.a);
-    let cta = ctext_n(&va)?;
-    if cta.is_none() {
+    // the canonical text costs O(depth²) renderings: very deep terms are compared on exact text only
+    let shallow = |v: &ND| v.term().depth() <= 40;
+    let cta = if shallow(&c.a) { ctext_n(&va)? } else { None };
+    if !shallow(&c.a) {
+        sh.class("deep/exact-text-only");
+    }
+    if cta.is_none() && shallow(&c.a) {
         sh.class("inconclusive/frame-not-learnable");
     }
     for (label, w) in [("edit", &a2), ("same", &c.a), ("other", &c.other)] {
@@ -286,7 +291,7 @@ pub fn check(sh: &Shared, c: &Case) -> Check {
             if !equal && rw == ra {
                 fail!("typst:collision", "two semantically different values render to the same text\ntext {ra:?}\na = {:?}\nb = {:?}", c.a, w);
             }
-            let ctw = ctext_n(&vw)?;
+            let ctw = if shallow(w) && shallow(&c.a) { ctext_n(&vw)? } else { None };
             match (&cta, &ctw) {
                 (Some(x), Some(y)) => {
                     if equal && x != y {
@@ -297,7 +302,9 @@ pub fn check(sh: &Shared, c: &Case) -> Check {
                     }
                 }
                 _ => {
-                    sh.class("inconclusive/frame-not-learnable");
+                    if shallow(w) && shallow(&c.a) {
+                        sh.class("inconclusive/frame-not-learnable");
+                    }
                 }
             }
             if rep >= 1 && (label == "other" || !has_unordered(w)) {
@@ -416,7 +423,7 @@ fn decor() -> BoxedStrategy<DecorEdit> {
 }
 
 pub fn strategy() -> BoxedStrategy<Case> {
-    let o = gen::TermOpts { weights: gen::W_SETS, depth: 3, size: 14, ..gen::TermOpts::main(0) };
+    let o = gen::TermOpts { weights: gen::W_SETS, depth: 3, size: 14, deep_max: 90, ..gen::TermOpts::main(0) };
     (gen::narsese(o), gen::edit(0), decor(), gen::narsese(o), gen::tape(), gen::tape())
         .prop_map(|(a, edit, decor, other, t1, t2)| {
             // a pure decoration edit keeps the term: make the term edit a no-op in half of those cases
